@@ -106,7 +106,7 @@ func isIntrinsic(fn *ssa.Function) (string, bool) {
 	if fn.Origin() != nil {
 		o = fn.Origin()
 	}
-	if o.Pkg != nil && strings.HasSuffix(o.Pkg.Pkg.Path(), "/zzvsup") {
+	if o.Pkg != nil && strings.HasSuffix(o.Pkg.Pkg.Path(), "/zzvsup") && o.Synthetic == "" {
 		return o.Name(), true
 	}
 	return "", false
